@@ -98,6 +98,9 @@ impl Write for Console {
 
 // ---- the shadow tree (at the crate root so that `crate::stream` etc. resolve) ----
 #[allow(dead_code, unused_imports, deprecated, missing_docs, clippy::all)]
+#[path = "../../common/lits.rs"]
+mod lits;
+
 pub mod stream {
     include!(concat!(env!("OUT_DIR"), "/stream.rs"));
     impl private::Sealed for crate::Console {}
@@ -193,13 +196,19 @@ fn wcs(f: &[&str]) -> String {
             }
             "f" => {
                 let frags: Vec<String> = rest.split('/').map(|h| String::from_utf8(unhex(h)).expect("utf8 fragment")).collect();
-                res_u(write!(s, "{}", Frags(frags)))
+                match if frags.len() == 1 { lits::write_lit(&mut s, &frags[0]) } else { None } {
+                    Some(r) => res_u(r),
+                    None => res_u(write!(s, "{}", Frags(frags))),
+                }
             }
             "F" => res_u(s.flush()),
             _ => panic!("unknown op"),
         });
     }
-    drop(s);
+    // taking the console writer back returns the very writer that recorded the calls
+    let back: Console = s.into_inner();
+    assert!(Rc::ptr_eq(&back.log, &log), "WinconStream::into_inner");
+    drop(back);
     let calls = log.borrow().calls.join(";");
     format!("{} | {}", if results.is_empty() { "-".to_owned() } else { results.join(",") }, if calls.is_empty() { "-".to_owned() } else { calls })
 }
